@@ -29,7 +29,19 @@ EXPRS = [
     ("ceil", lambda v: np.ceil(v), lambda T: T - 0.25 if float(T).is_integer() else None, True),
     ("round", lambda v: np.round(v), lambda T: T + 0.2 if float(T).is_integer() else None, True),
     ("nested", lambda v: (2 * v + 1) / 2 - 0.5, lambda T: T, True),
+    # an exact tie: numpy / Python round half to even, so x.5 with x even rounds DOWN to x
+    ("round-tie", lambda v: np.round(v), lambda T: T + 0.5 if float(T).is_integer() and int(T) % 2 == 0 else None, True),
+    # array-only kinds (whole-array arguments): an array LITERAL as the other operand of the expression
+    ("s*lit", None, lambda T: T, False),  # scalar variable x literal array
+    ("v*lit", None, None, False),  # array variable x literal array (elementwise)
+    ("v+lit", None, None, False),  # array variable + literal array
 ]
+ARRAY_ONLY = ("s*lit", "v*lit", "v+lit")
+LIT = [2.0, 0.5, 4.0, 0.25, 8.0]
+
+
+class ArrBase(float):
+    """Base value of a whole-array position (marks the position for `applicable`)."""
 EX = {e[0]: e for e in EXPRS}
 
 
@@ -61,6 +73,9 @@ class Vals:
         if kind is None or self.mode == "plain":
             return T
         name = f"v{pos}"
+        if kind in ARRAY_ONLY:
+            self.skip = True
+            return T
         if kind == "item":
             v = T
             if self.mode == "template":
@@ -73,7 +88,7 @@ class Vals:
         if v is None:
             self.skip = True
             return T
-        use_int_var = integer and int_safe and kind not in ("floor", "ceil", "round") and float(v).is_integer()
+        use_int_var = integer and int_safe and kind not in ("floor", "ceil", "round", "round-tie") and float(v).is_integer()
         if self.mode == "template":
             if name not in self.vars:
                 self.vars[name] = self.seq.declare_variable(name, dtype=int if use_int_var else float)
@@ -83,8 +98,8 @@ class Vals:
 
     def arr(self, pos, base_list):
         """A whole array argument (e.g. interpolation values): literal list, or an expression of a size-n array variable."""
-        self.positions.append((pos, 1.0, False))
-        T = self.assign.get(pos, 1.0)  # scale factor applied to the base list
+        self.positions.append((pos, ArrBase(1.0), False))
+        T = float(self.assign.get(pos, 1.0))  # scale factor applied to the base list
         kind = self.chosen.get(pos)
         target = [T * b for b in base_list]
         if kind is None or self.mode == "plain":
@@ -101,6 +116,24 @@ class Vals:
                 self.owned_lists.append(order)
                 return self.vars[name][order]
             return np.array(target, dtype=float)
+        if kind == "s*lit":
+            name = f"v{pos}"
+            if self.mode == "template":
+                if name not in self.vars:
+                    self.vars[name] = self.seq.declare_variable(name, dtype=float)
+                return self.vars[name] * np.array(base_list, dtype=float)
+            return np.float64(T) * np.array(base_list, dtype=float)
+        if kind in ("v*lit", "v+lit"):
+            n = len(base_list)
+            lit = np.array(LIT[:n], dtype=float)
+            name = f"v{pos}"
+            self.arrays[name] = (base_list, (lambda t: t), None, (kind, lit))
+            w = np.array(target, dtype=float) / lit if kind == "v*lit" else np.array(target, dtype=float) - lit
+            if self.mode == "template":
+                if name not in self.vars:
+                    self.vars[name] = self.seq.declare_variable(name, size=n, dtype=float)
+                return self.vars[name] * lit if kind == "v*lit" else self.vars[name] + lit
+            return w * lit if kind == "v*lit" else w + lit
         f = {"var": lambda v: v, "2*v": lambda v: 2 * v, "-v": lambda v: -v, "v/2": lambda v: v / 2, "v+1": lambda v: v + 1}.get(kind)
         inv = {"var": lambda t: t, "2*v": lambda t: t / 2, "-v": lambda t: -t, "v/2": lambda t: t * 2, "v+1": lambda t: t - 1}.get(kind)
         if f is None:
@@ -125,7 +158,10 @@ class Vals:
             if name in self.arrays:
                 base_list, inv = self.arrays[name][:2]
                 vals = [inv(T * b) for b in base_list]
-                if len(self.arrays[name]) > 2:  # read through var[order]: w[order[i]] = target[i]
+                if len(self.arrays[name]) > 3:  # the variable is combined with a literal array
+                    k, lit = self.arrays[name][3]
+                    vals = [float(v / l) if k == "v*lit" else float(v - l) for v, l in zip(vals, lit)]
+                elif len(self.arrays[name]) > 2:  # read through var[order]: w[order[i]] = target[i]
                     order = self.arrays[name][2]
                     w = [0.0] * len(vals)
                     for i, o in enumerate(order):
@@ -254,6 +290,10 @@ def positions_of(name, w):
 
 
 def applicable(kind, base, integer, pos):
+    if isinstance(base, ArrBase):
+        return kind in ("var", "item", "2*v", "-v", "v/2", "v+1") + ARRAY_ONLY
+    if kind in ARRAY_ONLY:
+        return False
     if kind == "item":
         return True
     inv = EX[kind][2]
